@@ -218,6 +218,9 @@ func c17Run(c *Ctx) {
 	visit := func(r *atlasRun, o *atlasObs, choices []int) {
 		if len(o.TmpLeft) == 0 {
 			c.Outcome("tmpdir-empty")
+			if c.Shard == 0 && len(c.P.Samples) < 4 && len(choices)%3 == 0 {
+				c.Sample(map[string]any{"script": r.String(), "requests": reqSummary(o.Reqs), "level": o.Level, "exit": o.Exit})
+			}
 			return
 		}
 		c.Outcome("temp-file-left")
@@ -319,6 +322,9 @@ func c20Run(c *Ctx) {
 		}
 		if clean {
 			c.Outcome("key-confined")
+			if c.Shard == 0 && len(c.P.Samples) < 4 && len(choices)%3 == 0 {
+				c.Sample(map[string]any{"script": r.String(), "requests": reqSummary(o.Reqs), "level": o.Level, "exit": o.Exit})
+			}
 		}
 	}
 	b := 1
